@@ -120,6 +120,25 @@ func (st *State) intrinsic(g *G, fr *Frame, name string, fn *ssa.Function, args 
 		return nil, false
 	case "Yield":
 		return nil, false
+	case "FireTimers":
+		// one-shot: every timer channel some goroutine currently waits on becomes ready (later timers are not affected)
+		n := 0
+		for _, o := range st.gs {
+			if o.Status != "blocked" || o.Wait == nil {
+				continue
+			}
+			if o.Wait.ch != nil && o.Wait.ch.Timer && !o.Wait.ch.Fired {
+				o.Wait.ch.Ready = true
+				n++
+			}
+			for _, sc := range o.Wait.sel {
+				if sc.ch != nil && sc.ch.Timer && !sc.ch.Fired {
+					sc.ch.Ready = true
+					n++
+				}
+			}
+		}
+		return BV(64, uint64(n)), false
 	case "SetTimers":
 		st.timersOn = args[0].(*Term).IsTrue()
 		return nil, false
